@@ -387,6 +387,20 @@ M("C02", "v84-slice-cell-other-row", (CMS, "let cell = &mut table[i * w + pos];"
 M("C11", "v84-blocks-shift-off", (HP, "trailing_zeros()", "trailing_zeros() + 1"), "R11-dimension", "", base="benign/B84/patch.diff")
 M("C15", "v82-prev-not-updated", (TD, "            c_last = c;\n", ""), "shape-unrecognised", "quantile", base="benign/B82/patch.diff")
 
+# ---- on top of the performance twins that became analysable (B92..B94) and the hoisted skip-window test
+M("C17", "v93-rank-cap-off-by-one", (HLL, "min(64 - self.b as u32)", "min(63 - self.b as u32)"), "R17-index-rank", "add_hashed:p", base="benign/B93/patch.diff")
+M("C17", "v93-clear-halves-registers", (HLL, "self.registers.fill(0);", "self.registers = vec![0; self.registers.len() / 2];"), "R17-index-rank", "add_hashed:j", base="benign/B93/patch.diff")
+M("C17", "v93-ctor-admits-short-vector", (HLL, "            m == len,", "            m >= len,"), "R17-index-rank", "add_hashed:j", base="benign/B93/patch.diff")
+M("C11", "v92-clear-doubles-table", (CF, "all_zero_intvector(self.l_fingerprint, self.table.len() as usize)", "all_zero_intvector(self.l_fingerprint, self.table.len() as usize * 2)"), "R11-alloc-terms", "", base="benign/B92/patch.diff")
+_HOIST_OLD = "        let t = self.k * 4; // TODO: make this a parameter\n\n        if self.i < self.k {"
+_HOIST_NEW = "        let t = self.k * 4; // TODO: make this a parameter\n\n        if self.i < self.skip_until {\n            self.i += 1;\n            return;\n        }\n\n        if self.i < self.k {"
+B("C05", "skip-window-test-hoisted", (RS, _HOIST_OLD, _HOIST_NEW))
+B("C18", "skip-window-test-hoisted", (RS, _HOIST_OLD, _HOIST_NEW))
+M("C05", "skip-window-hoisted-clear-keeps-window", [(RS, _HOIST_OLD, _HOIST_NEW), (RS, "        self.i = 0;\n        self.skip_until = 0;\n", "        self.i = 0;\n")], "R05-phases", "add")
+M("C18", "skip-window-hoisted-gap-set-while-filling", [(RS, _HOIST_OLD, _HOIST_NEW), (RS, "            // initial fill-up\n            self.reservoir.push(obj)", "            // initial fill-up\n            self.skip_until = self.i + 2;\n            self.reservoir.push(obj)")], "R18-length", "add")
+M("C05", "gap-draw-ceil-instead-of-floor", (RS, "            let g = (u.ln() / (1. - p).ln()).floor() as usize;", "            let g = (u.ln() / (1. - p).ln()).ceil() as usize;"), "R05-gap-term", "gap-draw")
+B("C05", "gap-draw-floor-by-cast", (RS, "            let g = (u.ln() / (1. - p).ln()).floor() as usize;", "            let g = (u.ln() / (1. - p).ln()) as usize;"))
+
 
 def main():
     out = os.path.join(os.path.dirname(os.path.abspath(__file__)), "corpus.json")
